@@ -36,6 +36,9 @@ type solveOpts struct {
 func queryText(o *Obligation, watch []string) string {
 	var b strings.Builder
 	body := strings.Join(o.Script, "\n") + "\n" + o.Reach + "\n" + o.Formula
+	if strings.Contains(body, "(bitor ") {
+		body += " (bitand "
+	}
 	for i, l := range o.Script {
 		b.WriteString(l)
 		b.WriteByte('\n')
